@@ -34,7 +34,9 @@ def _np_dtype(code):
     import numpy as np
     from nitypes.complex import ComplexInt32DType
     return {0: ComplexInt32DType, 1: np.dtype(np.complex64), 2: np.dtype(np.complex128), 3: np.dtype(np.float64),
-            4: np.dtype(np.int32), 5: np.dtype([("real", np.int32), ("imag", np.int32)])}[code]
+            4: np.dtype(np.int32), 5: np.dtype([("real", np.int32), ("imag", np.int32)]),
+            # field-less void and sub-array dtypes: unsupported although a structured dtype is supported
+            6: np.dtype("V4"), 7: np.dtype("V16"), 8: np.dtype((np.int16, (2,))), 9: np.dtype("V8")}[code]
 
 
 def _layout(arr, layout):
@@ -259,7 +261,7 @@ def gen_cases(rng, tier):
     layouts = ["C", "F", "strided", "reversed", "transposed", "colslice"]
     for _ in range(2500 if not big else 30000):
         src = rng.choice([0, 0, 1, 2])
-        dst = rng.choice([0, 1, 2, 0, 1, 2, 3, 4, 5]) if rng.random() < 0.12 else rng.choice([0, 1, 2])
+        dst = rng.choice([0, 1, 2, 0, 1, 2, 3, 4, 5, 6, 7, 8, 9]) if rng.random() < 0.15 else rng.choice([0, 1, 2])
         shape = _shape(rng)
         n = 1
         for s in shape:
